@@ -135,6 +135,12 @@ def simulation(args_dict):
         if verb < 1:
             cfg['simulation_options']['tqdm_opts'] = False
 
+        # The option documented as `cell_number` is the parameter
+        # `cell_numbers` of the automatic gridding.
+        gopts = cfg['simulation_options'].get('gridding_opts', {})
+        if 'cell_number' in gopts:
+            gopts['cell_numbers'] = gopts.pop('cell_number')
+
         # Create simulation.
         sim = simulations.Simulation(
                 survey=survey,
